@@ -24,6 +24,26 @@ theorem decode_spec (e : Pt L4) (data : Bytes) (hb : IsBytes data) :
         (Hand.ElementL.decode e data).1 = none ∧ PtValid limbLawful (Hand.ElementL.decode e data).2 ∧
         affPt (Hand.ElementL.decode e data).2 = pt) := _root_.decode_spec e data hb
 
+/-- **C03 for the `Decode` regenerated from `element.go` on this run**: it reports no error exactly when the specification
+accepts the string; then the receiver holds a valid representation of that point; otherwise the error is the package's
+`errParamInvalidPointEncoding` and the receiver is unchanged -/
+theorem decode_regenerated (e : Pt L4) (data : Bytes) (hb : IsBytes data) :
+    (Spec.decode data = none →
+      GenDecode.decode DecodeTies.limbBytes Hand.limbOps e data = (some "errParamInvalidPointEncoding", e)) ∧
+    (∀ pt, Spec.decode data = some pt →
+      (GenDecode.decode DecodeTies.limbBytes Hand.limbOps e data).1 = none ∧
+      PtValid limbLawful (GenDecode.decode DecodeTies.limbBytes Hand.limbOps e data).2 ∧
+      affPt (GenDecode.decode DecodeTies.limbBytes Hand.limbOps e data).2 = pt) := by
+  rw [DecodeTies.decode_tie]
+  obtain ⟨hrej, hacc⟩ := _root_.decode_spec e data hb
+  constructor
+  · intro h; rw [hrej h]; rfl
+  · intro pt h
+    obtain ⟨h1, h2, h3⟩ := hacc pt h
+    refine ⟨?_, h2, h3⟩
+    show (Hand.ElementL.decode e data).1.map DecodeTies.errName = none
+    rw [h1]; rfl
+
 /-- acceptance is an *iff* -/
 theorem decode_accepts_iff (e : Pt L4) (data : Bytes) (hb : IsBytes data) :
     (Hand.ElementL.decode e data).1 = none ↔ ∃ pt, Spec.decode data = some pt := by
